@@ -308,7 +308,9 @@ def check_shift(ctx, kind, entry, offsets, extra=(), env=None, utc=False):
 
 DIFF_ITEMS = ["2015-12-31T23:59:59Z", "20160229T063101+0545", "2016-060T06:31:01-00:30", "2015-W53-4T23:59Z",
               "2000-01-01T00Z", "1999-12-31T24:00:00Z", "2000-01-01T01:00:00+01:00", "+000000-01-01T00:00:00Z",
-              "+000001-001T00Z", "9999-12-31T23:59:59-12:00", "2016-02-29", "2016", "2015-12-31T23,5Z", "1970-01-01T00Z"]
+              "+000001-001T00Z", "9999-12-31T23:59:59-12:00", "2016-02-29", "2016", "2015-12-31T23,5Z", "1970-01-01T00Z",
+              "2000-01-01T10:30:00Z", "2000-01-01T13:00:15+01:00"]
+DIFF_FORMATS = ["d,h,M,s", "h:M", "y/m/d h-M-s", "s M"]   # duration print formats: y m d h M s are fields, the rest literal
 DIFF_VALUES = None
 
 
@@ -355,8 +357,10 @@ def diff_value(kind, text):
     return None
 
 
-def check_diff(ctx, kind, a, b, off1, off2, total):
+def check_diff(ctx, kind, a, b, off1, off2, total, fmt=None):
     argv = [a, b]
+    if fmt:
+        argv += ["-f", fmt]
     for o in off1:
         argv += ["--offset1=" + o]
     for o in off2:
@@ -367,6 +371,8 @@ def check_diff(ctx, kind, a, b, off1, off2, total):
         argv += ["--calendar=" + A.MODE_OF[kind]]
     case = lambda: {"kind": "diff", "mode": kind, "argv": argv}  # noqa: E731
     sig = {"total": total, "off1": bool(off1), "off2": bool(off2)}
+    if fmt:
+        sig["fmt"] = fmt
     va, vb = diff_value(kind, a), diff_value(kind, b)
     ctx.transitions += 1
     res = run_main(argv)
@@ -391,6 +397,23 @@ def check_diff(ctx, kind, a, b, off1, off2, total):
             return
         if abs(got - delta / unit) > Fraction(1, 10 ** 6):
             ctx.violation("as_total", sig, case, float(delta / unit), out)
+        return
+    if fmt:
+        # the sign once in front, then each field letter replaced by that field of |d| (0 <= h < 24, 0 <= M, s < 60)
+        mag = abs(delta)
+        want = {"y": 0, "m": 0, "d": mag // 86400, "h": mag % 86400 // 3600, "M": mag % 3600 // 60, "s": mag % 60}
+        pat = ("-" if delta < 0 else "") + "".join(
+            "(?P<%s%d>\\d+(?:\\.\\d+)?)" % (ch, i) if ch in want else re.escape(ch) for i, ch in enumerate(fmt))
+        mo = re.match("^" + pat + "$", out)
+        bad = mo is None
+        if mo:
+            for name, txt in mo.groupdict().items():
+                if abs(Fraction(txt) - want[name[0]]) > Fraction(1, 10 ** 6):
+                    bad = True
+        if bad:
+            ctx.violation("duration_format", sig, case,
+                          {"sign": "-" if delta < 0 else "", "fields": {k: str(v) for k, v in want.items()}}, out)
+        ctx.outcome("diff_fmt_sign", (delta > 0) - (delta < 0))
         return
     d = dur_desc(out)
     if d is None or d["years"] or d["months"]:
@@ -487,6 +510,10 @@ def run_unit(unit, ctx):
             for b in DIFF_ITEMS:
                 ctx.state_count += 1
                 check_diff(ctx, kind, a, b, [], [], None)
+                check_diff(ctx, kind, a, b, [], [], None, fmt=DIFF_FORMATS[(DIFF_ITEMS.index(a) + DIFF_ITEMS.index(b)) % len(DIFF_FORMATS)])
+        for a, b in itertools.product(DIFF_ITEMS[-4:], repeat=2):
+            for fmt in DIFF_FORMATS:
+                check_diff(ctx, kind, a, b, [], [], None, fmt=fmt)
         for a, b in itertools.product(DIFF_ITEMS[:6], repeat=2):
             for total in ("h", "M", "s", "H"):
                 check_diff(ctx, kind, a, b, [], [], total)
@@ -576,6 +603,44 @@ def run_options(ctx):
             if (alone[0], str(alone[1])) != (seq[0], str(seq[1])):
                 ctx.violation("calendar_default_after_earlier_command", {}, {"kind": "options", "argv": second, "after": first},
                               list(alone), list(seq))
+    # every command prints what it prints alone, whatever commands ran before it in the same process (operators,
+    # parsers and dumpers built by an earlier command must not leak their --utc / zone / calendar / format settings)
+    cmds = [["R3/2016-01-31T00/PT6H"], ["R3/2016-01-31T00/PT6H", "--utc"], ["R2/PT6H/2016-01-31T06:00"],
+            ["R2/PT6H/2016-01-31T06:00", "--utc"], ["2016-01-31T00"], ["2016-01-31T00", "--utc"], ["2016-01-31T00+01", "--utc"],
+            ["20160131T0000", "20160201T0000Z"], ["20160131T0000", "20160201T0000Z", "--utc"],
+            ["2016-02-30", "--calendar", "360day", "-s", "P1D"], ["+0020160131T00Z", "-s", "P1M"],
+            ["2016-01-31T00", "-f", "CCYY-DDDThh:mm+hh:mm"], ["R2/2016-060/P1D", "-f", "CCYYMMDDThhZ"]]
+    alone = {}
+    for cmd in cmds:
+        ctx.transitions += 1
+        alone[tuple(cmd)] = run_main(cmd)
+    # zone-less recurrence points are read in the system zone, or as UTC under --utc: judged by M on the suffix
+    for cmd, first in ((cmds[0], "2016-01-31T00:00:00+05:30"), (cmds[1], "2016-01-31T00:00:00Z"),
+                       (cmds[2], "2016-01-31T00:00:00+05:30"), (cmds[3], "2016-01-31T00:00:00Z")):
+        res = alone[tuple(cmd)]
+        lines = res[1].split("\n") if res[0] == "out" else []
+        if not lines or lines[0] != first or any(ln[-6:] != first[-6:] for ln in lines):
+            ctx.violation("recurrence_zone", {"utc": "--utc" in cmd}, {"kind": "options", "argv": cmd},
+                          {"first_line": first, "every_line_ends": first[-6:]}, list(res))
+    for first in cmds:
+        for second in cmds:
+            ctx.transitions += 1
+            ctx.state_count += 1
+            seq = run_main_sequence([first, second])[1]
+            a = alone[tuple(second)]
+            if (a[0], str(a[1])) != (seq[0], str(seq[1])):
+                ctx.violation("independent_of_earlier_command", {"second_kind": "recurrence" if second[0][0] == "R" else "other"},
+                              {"kind": "options", "argv": second, "after": first}, list(a), list(seq))
+    for first in cmds[:6]:
+        for mid in cmds[:6]:
+            for second in cmds[:6]:
+                ctx.transitions += 1
+                seq = run_main_sequence([first, mid, second])[2]
+                a = alone[tuple(second)]
+                if (a[0], str(a[1])) != (seq[0], str(seq[1])):
+                    ctx.violation("independent_of_earlier_command", {"second_kind": "recurrence" if second[0][0] == "R" else "other",
+                                                                     "depth": 3},
+                                  {"kind": "options", "argv": second, "after": [first, mid]}, list(a), list(seq))
     # ref: --ref and ISODATETIMEREF; now: the clock and zone seams
     for e in ents[:20]:
         text = e[0]
